@@ -101,11 +101,30 @@ def r12_2(ctx):
     r = RuleResult("R12.2", "K1", "Close announced at most once per channel")
     sites = _events(ctx, "Close")
     r.need("send_event(Close) sites", len(sites), 2)
+    # a second once-only idiom: Close is put on the channel's event sender after TAKING it out of the channel
+    # (`self.tx.lock().take()`): the sender exists once, so this path announces at most once - provided every other
+    # announcement also ends the event stream (drops the sender; rule R17.19), or a channel closed the first way could be
+    # announced again the second way
+    def on_taken_sender(body, t):
+        a0 = body.term_operand(t["a"][0])
+        forms = [a0] + list(core.expand_vars(body, a0, depth=3))
+        return any(mir.has(f, lambda x: x[0] == "call" and x[1].endswith("Option::<T>::take") and x[2] and mir.has_field(x[2][0], "tx")) for f in forms)
+    others_end_stream = None
     for body, bi, t in sites:
         r.scope.append(body.name)
         g = core.guard_edges(body, _state_transition_guard(ctx, "Closed"))
         if g and core.k1(body, [bi], g, fresh_per_iteration=True)[bi] is None:
             r.ok({"site": body.where(bi), "cut_by": "this call moved state to Closed (swap/compare_exchange)"})
+        elif on_taken_sender(body, t):
+            if others_end_stream is None:
+                from rules import c17
+                others_end_stream = all(ended for _b, _bi, ended in c17.close_sites_end_stream(ctx))
+            if others_end_stream:
+                r.ok({"site": body.where(bi), "cut_by": "sent on the event sender taken out of the channel; every other announcement drops the sender (R17.19)"})
+            else:
+                r.violate(body.name, "event:Close", body.where(bi),
+                          "Close is put on the taken event sender, but another announcement leaves the sender in place (R17.19): a channel "
+                          "closed that way is announced again here")
         else:
             r.violate(body.name, "event:Close", body.where(bi),
                       "Close is announced without proving that this call performed the transition to Closed "
